@@ -1025,7 +1025,7 @@ Theorem rs_session_fdt_cached_delivers E parse_fdt cfg oti content rep toi md5 n
   fdt_pkt_ok pf id foti d -> parse_fdt d = Some inst -> fdt_live cfg inst pf now ->
   fdt_entry_for (fi_files inst) (fi_oti inst) toi oti L md5 ->
   writer_accepts E toi -> writes_succeed E toi -> md5_good E content md5 ->
-  rs_oracle_mds E oti content rep toi ->
+  rs_oracle_mds E oti content rep toi -> rs_rep_sized oti rep ->
   rs_mem_need oti L <= cf_max_cache cfg -> nb_blocks_of oti L <= 4097 ->
   Forall (fun p => a_toi p = toi) (pre ++ post) ->
   Forall (fun p => rs_genuine_pkt oti content rep p = true) (pre ++ post) ->
@@ -1036,7 +1036,7 @@ Theorem rs_session_fdt_cached_delivers E parse_fdt cfg oti content rep toi md5 n
   let '(_, r, c) := recv_run E parse_fdt cfg recv0 (map (fun p => RvPush p now) (pre ++ pf :: post)) ctx0 in
   session_delivered cfg inst content toi r c.
 Proof.
-  intros L (Hrsf & He & Hb & HL & Hu) Hrs Htoi Hpf Hparse Hlive (f & F1 & F2 & F3 & F4 & F5) Hacc Hwr Hmd5 Hor Hmax Hn T G Pre1 Hfit Cl Rec.
+  intros L (Hrsf & He & Hb & HL & Hu) Hrs Htoi Hpf Hparse Hlive (f & F1 & F2 & F3 & F4 & F5) Hacc Hwr Hmd5 Hor Hrz Hmax Hn T G Pre1 Hfit Cl Rec.
   destruct (rs_is_cls oti Hrsf) as [Hcls Hfec].
   destruct (partition_of oti L) as [[[al as_] nal] n] eqn:Hpart.
   pose proof (top_sound E oti content rep toi al as_ nal n Hcls He Hb HL Hpart (rs_oracle_mds_sound _ _ _ _ _ Hor)) as Hsound.
@@ -1050,7 +1050,7 @@ Proof.
     apply (rs_blocks_ok_spec oti L); assumption. }
   assert (Gall : forall l, Forall (fun p => rs_genuine_pkt oti content rep p = true) l -> Forall (genr oti content rep al as_ nal n) l).
   { intros l Gl. pose proof (rs_genuine_pkt_spec oti content rep al as_ nal n l Hpart Gl) as G1. eapply Forall_impl; [|exact G1].
-    intros p Hp. split; [exact Hp|apply rs_sized_trivial; exact Hrsf]. }
+    intros p Hp. split; [exact Hp|exact (rs_genuine_sized oti content rep al as_ nal n p Hrsf Hrz Hp)]. }
   apply Forall_app in T. destruct T as [T1 T2]. apply Forall_app in G. destruct G as [G1 G2].
   pose proof (Gall _ G1) as G1'. pose proof (Gall _ G2) as G2'.
   assert (P1 : Forall (pktc toi (genr oti content rep al as_ nal n)) pre).
@@ -1207,7 +1207,7 @@ Theorem rs_cached_recoverable_delivers E oti content rep toi max fid files inst 
   let L := lenN_ content in
   rs_scheme_ok oti L -> rs_blocks_ok oti L -> toi <> 0 -> fdt_entry_for files inst toi oti L md5 ->
   writer_accepts E toi -> writes_succeed E toi -> md5_good E content md5 ->
-  rs_oracle_mds E oti content rep toi ->
+  rs_oracle_mds E oti content rep toi -> rs_rep_sized oti rep ->
   rs_mem_need oti L <= max -> nb_blocks_of oti L <= 4097 ->
   Forall cacheable pre -> cache_fits max 0 pre = true ->
   Forall (fun p => rs_genuine_pkt oti content rep p = true) (pre ++ post) ->
@@ -1219,7 +1219,7 @@ Theorem rs_cached_recoverable_delivers E oti content rep toi max fid files inst 
   /\ forall m, complete_exact content (m, calls_of (toi, 0%nat) (c_log c)) = true
                 /\ P_C02_object (rs_recoverable oti L (pre ++ post)) content [(m, calls_of (toi, 0%nat) (c_log c))] = true.
 Proof.
-  intros L Hok Hrs Htoi Hent Hacc Hwr Hmd5 Hor Hmax Hn Fc Hfit G Cl Rec.
+  intros L Hok Hrs Htoi Hent Hacc Hwr Hmd5 Hor Hrz Hmax Hn Fc Hfit G Cl Rec.
   pose proof Hok as (Hrsf & He & Hb & HL & Hu). pose proof Hent as (f & F1 & F2 & F3 & F4 & F5). pose proof Hacc as (A1 & A2).
   destruct (rs_is_cls oti Hrsf) as [Hcls Hfec].
   destruct (partition_of oti L) as [[[al as_] nal] n] eqn:Hpart.
@@ -1228,7 +1228,7 @@ Proof.
   pose proof (rs_genuine_pkt_spec oti content rep al as_ nal n pre Hpart (proj1 (proj1 (Forall_app _ _ _) G))) as G1'.
   rewrite (or_receive_cached_eq E oti content rep toi md5 max al as_ nal n Hfec He Hb HL Hu Hpart' Hsound fid files inst f
              F1 F2 F3 F4 F5 Htoi pre post A1 A2 Fc Hfit G1').
-  exact (rs_recoverable_delivers E oti content rep toi max fid files inst md5 (pre ++ post) Hok Hrs Hent Hacc Hwr Hmd5 Hor Hmax Hn G Cl Rec).
+  exact (rs_recoverable_delivers E oti content rep toi max fid files inst md5 (pre ++ post) Hok Hrs Hent Hacc Hwr Hmd5 Hor Hrz Hmax Hn G Cl Rec).
 Qed.
 Print Assumptions rs_cached_recoverable_delivers.
 
@@ -1423,6 +1423,7 @@ Proof.
   - intros i. reflexivity.
   - exact I.
   - exact xor_dec_mds.
+  - exact exr_rep_sized.
   - vm_compute. discriminate.
   - vm_compute. discriminate.
   - repeat constructor.
